@@ -54,6 +54,12 @@ def extra_grid():
     from predicate.standard_predicates import is_dict_of_p, is_int_p, is_str_p, is_tuple_of_p, has_key_p
     ps += [is_dict_of_p(("a", is_int_p)), is_dict_of_p(("a", is_int_p), ("b", is_str_p)), is_dict_of_p(("b", is_str_p), ("a", is_int_p)),
            is_dict_of_p(("a", is_str_p)), is_dict_of_p((is_str_p, is_int_p)), is_dict_of_p(("a", is_int_p)),
+           is_dict_of_p(("a", is_str_p), ("b", is_int_p)), is_dict_of_p(("b", is_int_p), ("a", is_str_p)), is_dict_of_p(("a", is_int_p), ("b", is_int_p)),
+           is_dict_of_p(("a", is_str_p), ("b", is_str_p)), is_dict_of_p(("a", is_int_p), ("b", is_str_p), ("c", is_int_p)),
+           is_dict_of_p(("a", is_int_p), ("c", is_str_p), ("b", is_int_p)), is_dict_of_p(("a", is_int_p), ("a", is_str_p)), is_dict_of_p(),
+           is_tuple_of_p(is_int_p, is_str_p, is_int_p), is_tuple_of_p(is_int_p, is_int_p, is_str_p), is_tuple_of_p(is_tuple_of_p(is_int_p, is_str_p)),
+           is_tuple_of_p(is_tuple_of_p(is_str_p, is_int_p)), all_p(is_tuple_of_p(is_int_p)), all_p(is_tuple_of_p(is_int_p, is_int_p)),
+           all_p(is_dict_of_p(("a", is_int_p), ("b", is_str_p))), all_p(is_dict_of_p(("a", is_str_p), ("b", is_int_p))),
            is_tuple_of_p(is_int_p), is_tuple_of_p(is_int_p, is_str_p), is_tuple_of_p(is_str_p, is_int_p), is_tuple_of_p(is_int_p, is_int_p), is_tuple_of_p(),
            regex_p("foo"), regex_p("foo"), regex_p("Foo"), regex_p("a.b"), has_key_p("a"), has_key_p("b")]
     for rx in (_re.compile("foo", _re.IGNORECASE), _re.compile("a.b", _re.DOTALL), _re.compile("foo")):
@@ -155,7 +161,9 @@ def correspondence(payload):
 def search(payload):
     ps = grid() + extra_grid()
     values = VALUES + [v for v in gen.TWIN_VALUES if not any(v is w or (type(v) is type(w) and v == w) for w in VALUES)] + [11, -1, 100] + [
-        "foo", "FOO", "Foo", "a\nb", "axb", {"a": 1}, {"a": 1, "b": "x"}, {"b": "x"}, {"a": "s"}, {"k": 2}, (1,), (1, "a"), ("a", 1), (1, 2)]
+        "foo", "FOO", "Foo", "a\nb", "axb", {"a": 1}, {"a": 1, "b": "x"}, {"b": "x"}, {"a": "s"}, {"k": 2}, (1,), (1, "a"), ("a", 1), (1, 2),
+        {"a": "x", "b": 1}, {"a": 1, "b": 2}, {"a": "x", "b": "y"}, {"a": 1, "b": "x", "c": 3}, {"a": 1, "c": "x", "b": 3}, {}, (1, "a", 2), (1, 2, "a"), ((1, "a"),), (("a", 1),),
+        [(1,)], [(1, 2)], [{"a": 1, "b": "x"}], [{"a": "x", "b": 1}]]
     fails, n = [], 0
     for i, p in enumerate(ps):
         if not (p == p):
